@@ -196,6 +196,18 @@ pub fn c03(j: &mut Judge, v: &StepView) {
             }
         }
         prices.push(bp.add_pos(&tick).to_plain_string());
+        // a fraction of a tick beyond either limit (whole totals are possible when the size
+        // carries more trailing zeros than the precision)
+        if cfg.precision < 27 {
+            let sub = Dec::tick(cfg.precision as u32 + 1);
+            prices.push(bp.add_pos(&sub).to_plain_string());
+            prices.push(ap.add_pos(&sub).to_plain_string());
+            if let Some(x) = ap.sub_pos(&sub) {
+                if x.is_positive() {
+                    prices.push(x.to_plain_string());
+                }
+            }
+        }
         // midpoint with one more decimal
         let mid = ap.add_pos(&bp).mul(&Dec { neg: false, mant: crate::num::u(5), scale: 1 });
         prices.push(mid.to_plain_string());
